@@ -272,8 +272,14 @@ Example C04_layout_nonvacuous :
                 r_start rv = (0, 0) /\ r_end rv = (1, 1) /\
                 nth_error (r_inner rv) 1 = Some (DString [97; 98; 10; 99; 100]).
 Proof.
-  cbn zeta. repeat split; try (vm_compute; reflexivity); try discriminate.
-  eexists; eexists; repeat split; vm_compute; reflexivity.
+  cbn zeta.
+  split; [vm_compute; reflexivity|]. split; [vm_compute; reflexivity|].
+  split; [vm_compute; reflexivity|]. split; [vm_compute; reflexivity|].
+  split; [vm_compute; reflexivity|].
+  split; [intro H; apply (f_equal (fun x => length (xr_items x))) in H; vm_compute in H; discriminate|].
+  eexists; eexists.
+  split; [vm_compute; reflexivity|]. split; [vm_compute; reflexivity|].
+  repeat split; vm_compute; reflexivity.
 Qed.
 
 Check C04_row_layout_transparent : forall x : xrow,
